@@ -135,6 +135,8 @@ class DirHandler(BaseHandler):
                     # symlink, a renamed or moved directory): its entries
                     # carry that selector, so they are not ours.
                     raise ValueError("cache written for " + repr(cachedfor))
+                for entry in self.fileentries:
+                    entry.setconfig(self.config)
             except Exception:
                 # A truncated or corrupt cache file (interrupted writer, full
                 # disk, concurrent writer) is treated as if it was absent.
